@@ -340,6 +340,12 @@ def build(run):
         ("Outer[zero,a]", lambda: C.Outer(Z3, Opq("a", (2,))), (3, 2), ()), ("Outer[a_i,zero]", lambda: C.Outer(Opq("a", (2,), (I,), (2,)), Z3), (2, 3), ((I.count(), 2),)),
         ("Inner[zero,a]", lambda: C.Inner(Z3, Opq("a", (3,))), (), ()), ("Inner[a,zero_i]", lambda: C.Inner(Opq("a", (3,)), Zi3), (), ((I.count(), 2),)),
         ("Dot[zero,a]", lambda: C.Dot(Z23, Opq("a", (3,))), (2,), ()), ("Dot[A,zero]", lambda: C.Dot(Opq("A", (2, 3)), Z33), (2, 3), ()),
+        ("Dot[zero(2,3),B(3,4)]", lambda: C.Dot(Z23, Opq("B", (3, 4))), (2, 4), ()), ("Dot[A(2,3),zero(3,4)]", lambda: C.Dot(Opq("A", (2, 3)), C.Zero((3, 4))), (2, 4), ()),
+        ("Dot[zero(3),B(3,4)]", lambda: C.Dot(Z3, Opq("B", (3, 4))), (4,), ()), ("Dot[a(3),zero(3,4)]", lambda: C.Dot(Opq("a", (3,)), C.Zero((3, 4))), (4,), ()),
+        ("Dot[zero(2,2),B(2,3,4)]", lambda: C.Dot(C.Zero((2, 2)), Opq("B", (2, 3, 4))), (2, 3, 4), ()),
+        ("Dot[A(2,2),zero(2,3,4)]", lambda: C.Dot(Opq("A", (2, 2)), C.Zero((2, 3, 4))), (2, 3, 4), ()),
+        ("Dot[zero_i(2,3),B(3,4)]", lambda: C.Dot(C.Zero((2, 3), (I.count(),), (2,)), Opq("B", (3, 4))), (2, 4), ((I.count(), 2),)),
+        ("Outer[zero(2),B(3,4)]", lambda: C.Outer(C.Zero((2,)), Opq("B", (3, 4))), (2, 3, 4), ()),
         ("Cross[zero,a]", lambda: C.Cross(Z3, Opq("a", (3,))), (3,), ()), ("Perp[zero]", lambda: C.Perp(C.Zero((2,))), (2,), ()),
         ("Trace[zero]", lambda: C.Trace(Z33), (), ()), ("Determinant[zero]", lambda: C.Determinant(Z33), (), ()),
         ("Deviatoric[zero]", lambda: C.Deviatoric(Z33), (3, 3), ()), ("Skew[zero]", lambda: C.Skew(Z33), (3, 3), ()), ("Sym[zero]", lambda: C.Sym(Z33), (3, 3), ()),
